@@ -68,6 +68,23 @@ def synthetic_grammars():
     return out
 
 
+def mixed_head_grammar():
+    """G8: results of one ordered pair disagree on the head direction (allowed by C02/C09/C10/C12; C01 speaks of head-uniform grammars only)"""
+    B = {('A', 'B'): [('S', 'abL', True), ('T', 'abR', False), ('S', 'abR2', False)], ('B', 'A'): [('T', 'baR', False), ('S', 'baL', True)],
+         ('S', 'A'): [('S', 'saL', True), ('S', 'saR', False)], ('A', 'T'): [('S', 'atR', False)], ('T', 'B'): [('S', 'tbL', True), ('T', 'tbR', False)]}
+    Bc = {(P(x), P(y)): [(P(c), l, h) for c, l, h in v] for (x, y), v in B.items()}
+    U = {P('B'): [(P('A'), 'u_ba')]}
+
+    def binary(x, y):
+        return [CombinatorResult(c, l, '<' + l + '>', h) for c, l, h in Bc.get((x, y), [])]
+
+    def unary(x):
+        return [CombinatorResult(c, l, '<' + l + '>', True) for c, l in U.get(x, [])]
+    g = Grammar('G8.mixed', [P('A'), P('B')], [P('S'), P('T')], binary, unary, True)
+    g.mixed = True
+    return g
+
+
 def empty_root_grammar():
     return table_grammar('G5e', ['A', 'B'], [], {('A', 'B'): [('R', 'r')]}, {}, True)
 
